@@ -37,7 +37,16 @@ pub struct Group {
 }
 
 pub fn make_group(r: &mut Prng, m: Vec<u8>, e: Vec<u8>, t: u32, local: bool, auxs: Vec<Option<Vec<u8>>>) -> Option<Group> {
-  let mg = MessageGenerator::new(SingleMeasurement::new(&m), t, &e);
+  // the conversion impls of the value types are glue the reports go through as well: text measurements are built
+  // with From<&str>, every other one with new(); length accessors must agree with the bytes
+  let sm = match std::str::from_utf8(&m) {
+    Ok(s) if m.len() % 2 == 1 => SingleMeasurement::from(s),
+    _ => SingleMeasurement::new(&m),
+  };
+  if sm.byte_len() != m.len() || sm.is_empty() != m.is_empty() || sm.as_slice() != &m[..] {
+    return None;
+  }
+  let mg = MessageGenerator::new(sm, t, &e);
   let mut rnd = [0u8; 32];
   if local {
     // (a panic of the library here or below is a failed generation, reported by the caller - not the end of the run)
@@ -48,7 +57,12 @@ pub fn make_group(r: &mut Prng, m: Vec<u8>, e: Vec<u8>, t: u32, local: bool, aux
   let mut wire = vec![];
   let mut xs = vec![];
   for a in &auxs {
-    let msg = guarded(|| Message::generate(&mg, &rnd, a.as_ref().map(|x| AssociatedData::new(x))).ok())??;
+    let ad = a.as_ref().map(|x| match (std::str::from_utf8(x), x.len() % 3) {
+      (Ok(s), 1) => AssociatedData::from(s),
+      (_, 2) => AssociatedData::from(x.as_slice()),
+      _ => AssociatedData::new(x),
+    });
+    let msg = guarded(|| Message::generate(&mg, &rnd, ad).ok())??;
     let b = msg.to_bytes();
     let (_, sb, _) = split_message(&b)?;
     xs.push(share_x(&sb)?);
